@@ -3,6 +3,7 @@ package lint
 import (
 	"fmt"
 	"go/constant"
+	"go/token"
 	"go/types"
 	"sort"
 	"strings"
@@ -188,6 +189,17 @@ func (m *Model) foldSite(site *SQLSite, args []ssa.Value) {
 			site.DynamicArgs = true
 			// named arguments created anywhere in the enclosing declared function
 			m.collectNamedArgs(rootOf(site.Fn), site)
+			// positional arguments: the stable prefix of a slice that is only ever extended by append
+			for _, v := range m.prefixArgs(args[1], site.Fn) {
+				sv := stripConv(v)
+				if call, ok := sv.(*ssa.Call); ok {
+					if f := call.Common().StaticCallee(); f != nil && f.Pkg != nil && f.Pkg.Pkg.Path() == "database/sql" && f.Name() == "Named" {
+						site.Positional = append(site.Positional, nil)
+						continue
+					}
+				}
+				site.Positional = append(site.Positional, v)
+			}
 		} else {
 			for _, v := range vals {
 				sv := stripConv(v)
@@ -509,4 +521,90 @@ func hasBodyTest(e *sqlp.Expr) bool {
 		}
 	}
 	return false
+}
+
+// prefixArgs: v is a load of a slice location (a local cell, or a field of a local struct) that
+// is initialised once from a literal and otherwise only extended by append (here or in
+// package-local functions the struct is handed to): the literal's elements are the arguments
+// bound to the first placeholders on every path.
+func (m *Model) prefixArgs(v ssa.Value, fn *ssa.Function) []ssa.Value {
+	ld, ok := stripConv(v).(*ssa.UnOp)
+	if !ok || ld.Op != token.MUL {
+		return nil
+	}
+	var base ssa.Value
+	field := -1
+	switch a := ld.X.(type) {
+	case *ssa.Alloc:
+		base = a
+	case *ssa.FieldAddr:
+		b, ok := stripConv(a.X).(*ssa.Alloc)
+		if !ok {
+			return nil
+		}
+		base, field = b, a.Field
+	default:
+		return nil
+	}
+	var initial []ssa.Value
+	nInit, bad := 0, false
+	var visit func(f *ssa.Function, obj ssa.Value, depth int)
+	visit = func(f *ssa.Function, obj ssa.Value, depth int) {
+		isLoc := func(addr ssa.Value) bool {
+			if field < 0 {
+				return addr == obj
+			}
+			fa, ok := addr.(*ssa.FieldAddr)
+			return ok && fa.Field == field && stripConv(fa.X) == obj
+		}
+		for _, b := range f.Blocks {
+			for _, ins := range b.Instrs {
+				switch x := ins.(type) {
+				case *ssa.Store:
+					if !isLoc(x.Addr) {
+						continue
+					}
+					val := stripConv(x.Val)
+					if call, ok := val.(*ssa.Call); ok {
+						if bi, ok := call.Common().Value.(*ssa.Builtin); ok && bi.Name() == "append" {
+							if l2, ok := stripConv(call.Common().Args[0]).(*ssa.UnOp); ok && l2.Op == token.MUL && isLoc(l2.X) {
+								continue // extended at the end
+							}
+						}
+						bad = true
+						continue
+					}
+					if vals, dyn := varargValues(val); !dyn {
+						initial = vals
+						nInit++
+						continue
+					}
+					bad = true
+				case ssa.CallInstruction:
+					if field < 0 || depth > 2 {
+						continue
+					}
+					for ai, a := range x.Common().Args {
+						if stripConv(a) != obj {
+							continue
+						}
+						callee := x.Common().StaticCallee()
+						if callee == nil || !m.inPkg(callee) || len(callee.Blocks) == 0 || ai >= len(callee.Params) {
+							bad = true
+							continue
+						}
+						visit(callee, callee.Params[ai], depth+1)
+					}
+				}
+			}
+		}
+		for _, an := range f.AnonFuncs {
+			_ = an
+		}
+	}
+	visit(fn, base, 0)
+	if bad || nInit != 1 {
+		return nil
+	}
+	return initial
 }
